@@ -23,7 +23,8 @@ RULE = ("Hypothesis rule-based state machine over a wallet (fixed + freshly gene
         "out and not restored). Oracle: load(dump(w)) == w field by field; a hand-out while the model's unused list is non-"
         "empty returns a key that is in the wallet and not currently handed out -- also with a save/load in between; balance == "
         "reference sum over all wallet keys; after a crash at any point wallet.json loads and equals the complete previous or the "
-        "complete new wallet (absent only if there was no previous one), also after the next start through open_or_init_wallet. non-trivial = crash point strictly inside a save "
+        "complete new wallet (absent only if there was no previous one), also after the next start through open_or_init_wallet, and the next "
+        "save in that directory (with whatever the crashed save left behind) again yields exactly the saved wallet. non-trivial = crash point strictly inside a save "
         "(distinct by construction: (machine, save, step)); sequences with hand-outs on both sides of a save+load are counted. "
         "miner_sessions: 2-3 runs of the real MinerWatcher.__call__ (start-up, 0-2 finds, a full disk injected at a chosen find, "
         "Ctrl-C and the shutdown path) over one wallet.json against a simulated node: no session may hand out a key that already "
@@ -216,6 +217,27 @@ class Exec:
             self.flags["restarts_after_crash"] = self.flags.get("restarts_after_crash", 0) + 1
             if (got3 != new_fields and got3 != old_fields) or (got4 != new_fields and got4 != old_fields):
                 self.fail("crash", "restart-after-crash-finds-mixed-wallet", "crash at step %d of save_wallet, then the next start: the wallet is neither the previous nor the new one" % kstep)
+                return
+            # ... and the NEXT SAVE in that directory (whatever the crashed save left behind is still lying there) produces a
+            # complete wallet file again: first the wallet as loaded, then a shorter one (a hand-out taken back)
+            for variant in ("as loaded", "shorter"):
+                if variant == "shorter":
+                    ann = sorted(w3.public_key_annotations)
+                    if not ann:
+                        break
+                    w3.restore_annotated_public_key(ann[0], w3.public_key_annotations[ann[0]])
+                want = wallet_fields(w3)
+                try:
+                    W.save_wallet(w3)
+                    with open("wallet.json") as fh:
+                        got5 = wallet_fields(W.Wallet.load(fh))
+                except Exception as e:
+                    self.fail("crash", "save-after-crash-leaves-unloadable-file", "crash at step %d of save_wallet, restart, then the next save (wallet %s): wallet.json does not load (%s)" % (kstep, variant, type(e).__name__))
+                    return
+                if got5 != want:
+                    self.fail("crash", "save-after-crash-leaves-wrong-wallet", "crash at step %d of save_wallet, restart, then the next save (wallet %s): wallet.json is not the wallet that was saved" % (kstep, variant))
+                    return
+            self.flags["saves_after_crash"] = self.flags.get("saves_after_crash", 0) + 1
 
         snapshot = {n: open(n, "rb").read() for n in os.listdir(".") if os.path.isfile(n)}
 
